@@ -150,7 +150,7 @@ def upvar_kinds(ctx, fn_name):
                 caps = []
                 for up in e[2]:
                     ck = char_kind(up)
-                    caps.append(ck[0] if ck is not None and mentions_move(ck[1], 2) else '?')
+                    caps.append(ck[0] if ck is not None and is_own_origin(ck[1]) else '?')
                 kinds[e[1]] = caps
     return kinds
 
@@ -160,6 +160,11 @@ def r1_disambiguation(ctx):
     facts = ctx.facts
     name = AN + 'get_disambiguating_chars'
     ro = {CHESSMOVE + '::from_square', CHESSMOVE + '::captures', TOALG, AN + 'get_ambiguous_moves'}
+    ROLE.clear()
+    ROLE.update(role_params(ctx, name))
+    fn_ = facts.need_fn(name)
+    piece_p = [i_ for i_ in range(1, fn_.arg_count + 1) if fn_.local_ty(i_) == PIECE_ADT]
+    piece_p = ('p', piece_p[0]) if piece_p else ('p', 1)
     outs = Engine(facts, readonly=ro).run(name)
     ctx.touch(name)
     preds = predicate_tables(ctx, name)
@@ -176,7 +181,7 @@ def r1_disambiguation(ctx):
         atoms = {'pawn': None, 'capture': None, 'nonempty': None}
         anys = {}
         for a, v in o.conds:
-            if a == ('discr', ('p', 1)):
+            if a == ('discr', piece_p):
                 atoms['pawn'] = 1 if v == pawn else 0
             elif a[0] == 'discr' and a[1][0] == 'call' and a[1][1] == CHESSMOVE + '::captures':
                 atoms['capture'] = 1 if v == 1 else 0
@@ -191,9 +196,9 @@ def r1_disambiguation(ctx):
         s = show(val)
         if val == C(''):
             out = ''
-        elif char_kind(val) is not None and mentions_move(char_kind(val)[1], 2):
+        elif char_kind(val) is not None and is_own_origin(char_kind(val)[1]):
             out = 'file' if char_kind(val)[0] == 'F' else 'rank'
-        elif 'charat' not in s and 'to_algebraic' in s and 'from_square' in s and 'arg2' in s:
+        elif 'charat' not in s and any(s_[0] == 'call' and s_[1] == TOALG and len(s_[2]) == 1 and is_own_origin(s_[2][0]) for s_ in subterms(val)):
             out = 'square'
         else:
             out = '?' + s[:40]
@@ -264,58 +269,104 @@ def _strip(t):
 
 
 PIECE_PARAMS = set()
+ROLE = {'params': {}, 'move': None}          # roles of the parameters of the function being analysed (see role_params)
+MOVE_TY = '&' + CHESSMOVE
+
+
+def role_params(ctx, name):
+    """Roles of the parameters of a notation helper: {'move': index of its `&ChessMove` parameter or None, 'params': {index: 'piece' |
+    'from' | 'to'}} for the parameters of type Piece / Bitboard that EVERY caller fills with what it computed from the move being
+    labelled - `board.get(m.from_square()).unwrap().0`, `m.from_square()`, `m.to_square()` - where m is the move the caller also hands
+    in (or, when the helper takes no move, the one move all these arguments are computed from).  Inside the helper such a parameter IS
+    that value of the labelled move ("compute once and pass down")."""
+    facts = ctx.facts
+    fn_ = facts.need_fn(name)
+    tys = {i_: fn_.local_ty(i_) for i_ in range(1, fn_.arg_count + 1)}
+    mv_idx = [i_ for i_, t_ in tys.items() if t_ == MOVE_TY]
+    res = {'move': mv_idx[0] if len(mv_idx) == 1 else None, 'params': {}}
+    cands = [i_ for i_, t_ in tys.items() if t_ in (PIECE_ADT, 'common::bitboard::bitboard::Bitboard')]
+    if not cands:
+        return res
+    sites = facts.call_sites(name, crate='chess', kinds=('lib', 'bin'))
+    callers = {(f.closure_of or f.name) for f, _ in sites}
+
+    def classify(t_):
+        """(role, move term) of an argument"""
+        x = _strip(t_)
+        if x[0] == 'call' and x[1] in (CHESSMOVE + '::from_square', CHESSMOVE + '::to_square'):
+            return ('from' if x[1].endswith('from_square') else 'to', _strip(x[2][0]))
+        if x[0] == 'fld' and x[2] == '0' and x[1][0] == 'fld' and x[1][2] == 'Some.0':
+            g = _strip(x[1][1])
+            if g[0] == 'call' and g[1] == BOARD + '::get':
+                inner = classify(g[2][1])
+                if inner and inner[0] == 'from':
+                    return ('piece', inner[1])
+        return None
+    roles = {}
+    n_calls = 0
+    for c_ in callers:
+        outs = Engine(facts, opaque={name}, readonly={CHESSMOVE + '::from_square', CHESSMOVE + '::to_square', BOARD + '::get'}).run(c_)
+        for o in outs:
+            for e in o.events:
+                if e[0] == 'call' and e[1] == name:
+                    n_calls += 1
+                    args = e[2]
+                    cls = {i_: classify(args[i_ - 1]) for i_ in cands}
+                    movers = {c2[1] for c2 in cls.values() if c2}
+                    if res['move'] is not None:
+                        movers.add(_strip(args[res['move'] - 1]))
+                    one_move = len(movers) == 1
+                    for i_ in cands:
+                        r_ = cls[i_][0] if (cls[i_] and one_move) else None
+                        if tys[i_] == PIECE_ADT and r_ != 'piece':
+                            r_ = None
+                        if tys[i_] != PIECE_ADT and r_ == 'piece':
+                            r_ = None
+                        roles.setdefault(i_, set()).add(r_)
+    if n_calls:
+        for i_, rs in roles.items():
+            if len(rs) == 1 and None not in rs:
+                res['params'][i_] = next(iter(rs))
+    return res
 
 
 def piece_params(ctx, name):
-    """parameters of `name` of type Piece that every caller fills with the piece standing on the origin square of the move it also passes
-    (board.get(m.from_square()).unwrap().0): inside the function such a parameter IS the mover's piece kind"""
-    facts = ctx.facts
-    fn_ = facts.need_fn(name)
-    cands = [i_ for i_ in range(1, fn_.arg_count + 1) if fn_.local_ty(i_) == PIECE_ADT]
-    good = set()
-    if not cands:
-        return good
-    sites = facts.call_sites(name, crate='chess', kinds=('lib', 'bin'))
-    callers = {(f.closure_of or f.name) for f, _ in sites}
-    for i_ in cands:
-        ok = bool(callers)
-        for c_ in callers:
-            outs = Engine(facts, opaque={name}, readonly={CHESSMOVE + '::from_square', CHESSMOVE + '::to_square', BOARD + '::get'}).run(c_)
-            n_ = 0
-            for o in outs:
-                for e in o.events:
-                    if e[0] == 'call' and e[1] == name:
-                        n_ += 1
-                        a = e[2]
-                        pv = _strip(a[i_ - 1])
-                        mv = _strip(a[0])
-                        good_ = pv[0] == 'fld' and pv[2] == '0' and pv[1][0] == 'fld' and pv[1][2] == 'Some.0' and _strip(pv[1][1])[0] == 'call' \
-                            and _strip(pv[1][1])[1] == BOARD + '::get'
-                        if good_:
-                            sq_ = _strip(_strip(pv[1][1])[2][1])
-                            good_ = sq_[0] == 'call' and sq_[1] == CHESSMOVE + '::from_square' and _strip(sq_[2][0]) == mv
-                        ok = ok and good_
-            ok = ok and n_ > 0
-        if ok:
-            good.add(i_)
-    return good
+    """(kept for the callers that only need the Piece-typed role parameters)"""
+    return {i_ for i_, r_ in role_params(ctx, name)['params'].items() if r_ == 'piece'}
+
+
+def _pp(t):
+    """parent-function terms inside a closure body live in their own namespace: ('p', k) of the parent becomes ('pp', k), so that the
+    parent's k-th parameter is never mistaken for the closure's own (element) parameter"""
+    return tmap(t, lambda x: ('pp', x[1]) if (len(x) == 2 and x[0] == 'p' and isinstance(x[1], int)) else None)
+
+
+def is_own_origin(sq):
+    """sq is the origin square of the move being labelled: from_square() of the function's move parameter, or a parameter every caller
+    fills with it"""
+    x = _strip(sq)
+    if x[0] == 'p' and ROLE['params'].get(x[1]) == 'from':
+        return True
+    fs = [s_ for s_ in subterms(sq) if s_[0] == 'call' and s_[1] == CHESSMOVE + '::from_square']
+    return bool(fs) and ROLE['move'] is not None and all(any(y == ('p', ROLE['move']) for y in subterms(f_[2][0])) for f_ in fs)
 
 
 def _side(t):
     """classify one side of an equality in the ambiguity filter: (who, what) with who in {elem, move} and what in {from, to, piece}"""
-    t0 = t
     t = _strip(t)
+    par = 'p' if LOOP_FORM else 'pp'          # namespace of the analysed function's own parameters (see _pp)
     if t[0] == 'call' and t[1] in (CHESSMOVE + '::from_square', CHESSMOVE + '::to_square'):
+        r_ = _strip(t[2][0])
         if LOOP_FORM:
             # the per-candidate body is a loop body of the function itself: the element is what the iteration is at
-            who = 'elem' if is_iteration_element(t[2][0]) else {('p', 1): 'move'}.get(_strip(t[2][0]))
+            who = 'elem' if is_iteration_element(t[2][0]) else ('move' if (ROLE['move'] is not None and r_ == ('p', ROLE['move'])) else None)
         else:
-            who = {('p', 2): 'elem', ('p', 1): 'move'}.get(_strip(t[2][0]))
+            who = 'elem' if r_ == ('p', 2) else ('move' if (ROLE['move'] is not None and r_ == ('pp', ROLE['move'])) else None)
         return (who, 'from' if t[1].endswith('from_square') else 'to') if who else None
-    # the mover's piece handed in by the caller (checked at the call sites by piece_param_ok)
-    if t[0] == 'p' and t[1] in PIECE_PARAMS:
-        return ('move', 'piece')
-    # piece on the origin square: board.get(x.from_square()).Some.0.0
+    # a value of the labelled move handed in by the caller (checked at the call sites by role_params)
+    if t[0] == par and ROLE['params'].get(t[1]):
+        return ('move', ROLE['params'][t[1]])
+    # piece on the origin square: board.get(x.from_square()).Some.0.0 - or board.get(<from parameter>)
     if t[0] == 'fld' and t[2] == '0' and t[1][0] == 'fld' and t[1][2] == 'Some.0':
         g = _strip(t[1][1])
         if g[0] == 'call' and g[1] == BOARD + '::get':
@@ -374,7 +425,11 @@ def loop_filter_table(outs, head, lst):
             pushes = [e for e in o.events if e[0] == 'call' and e[1].endswith('::push')]
             keep = False
             if pushes:
-                keep = True if (len(pushes) == 1 and pushes[0][2][0] == ('ref', ('L', 0, lst)) and is_iteration_element(pushes[0][2][1])) else None
+                pel = pushes[0][2][1]
+                sp = _strip(pel)
+                if sp[0] == 'call' and sp[1] == CHESSMOVE + '::from_square' and len(sp[2]) == 1:
+                    pel = sp[2][0]                      # the rival's origin square is kept instead of the rival move
+                keep = True if (len(pushes) == 1 and pushes[0][2][0] == ('ref', ('L', 0, lst)) and is_iteration_element(pel)) else None
                 if keep is None:
                     problems.append('pushes ' + show(pushes[0][2][1]))
             rows.append((env, keep))
@@ -406,7 +461,7 @@ def filter_table(ctx, name, clo_name, snaps):
             continue
         env = {}
         for a, v in o.conds:
-            a = subst_upvars(a, snaps)
+            a = subst_upvars(a, [_pp(sn) for sn in snaps])
             if a[0] == 'discr' and _strip(a)[0] == 'call' and _strip(a)[1] == BOARD + '::get':
                 continue
             k = _atom(a)
@@ -415,9 +470,13 @@ def filter_table(ctx, name, clo_name, snaps):
                 continue
             env[k[0]] = (is_true(v) == k[1])
         pushes = [e for e in o.events if e[0] == 'call' and e[1].endswith('::push')]
-        val = subst_upvars(o.value, snaps) if isinstance(o.value, tuple) else o.value
+        val = subst_upvars(o.value, [_pp(sn) for sn in snaps]) if isinstance(o.value, tuple) else o.value
         if pushes:
             el = _strip(pushes[0][2][1])
+            # (a list of the rivals' ORIGIN squares instead of the rival moves themselves serves the disambiguation equally: only the
+            # origins are ever looked at)
+            if el[0] == 'call' and el[1] == CHESSMOVE + '::from_square' and len(el[2]) == 1:
+                el = _strip(el[2][0])
             keep = True if el == ('p', 2) else None
             if keep is None:
                 problems.append('pushes ' + show(pushes[0][2][1]))
@@ -453,8 +512,10 @@ def r2_filter(ctx):
     facts = ctx.facts
     name = AN + 'get_ambiguous_moves'
     ro = {CHESSMOVE + '::from_square', CHESSMOVE + '::to_square', BOARD + '::get'}
+    ROLE.clear()
+    ROLE.update(role_params(ctx, name))
     PIECE_PARAMS.clear()
-    PIECE_PARAMS.update(piece_params(ctx, name))
+    PIECE_PARAMS.update({i_ for i_, r_ in ROLE['params'].items() if r_ == 'piece'})
     outs = Engine(facts, readonly=ro).run(name)
     ctx.touch(name)
     rets = [o for o in outs if o.kind == 'return']
